@@ -4,6 +4,7 @@ import Jwt.Props.C11
 import Jwt.Props.C15
 import Jwt.Lemmas.PipelineBuilder
 import Jwt.Lemmas.PipelineConfig
+import Jwt.Lemmas.PipelineClosed
 /-!
 # C10 — generated tokens are well-formed and say exactly what the builder was told
 -/
@@ -253,5 +254,12 @@ theorem C10_offset_is_source (b : Builder) (c : ClaimId) (secs : Int) :
     let r := Jwt.Generated.Pipeline.timeSpan false (c = .exp) (c = .nbf) (secs ≤ Jwt.Generated.builderDisable)
     (b.timeOffset c secs).2 = r.1 ∧ (r.2.2.1 = true → (b.timeOffset c secs).1.cfg.expOff = secs) ∧ (r.2.2.2.1 = true → (b.timeOffset c secs).1.cfg.nbfOff = secs) :=
   ⟨(builder_timeOffset_generated b c secs).1, fun h => ((builder_timeOffset_generated b c secs).2.1 h).1, fun h => ((builder_timeOffset_generated b c secs).2.2 h).1⟩
+
+/-- the generated `jwt_encode` returns 0 exactly when header and payload were serialised and encoded, the buffers
+allocated and -- unless the algorithm is none, where nothing is signed -- `jwt_sign` and the encoding of its result
+succeeded (all combinations, kernel evaluation) -/
+theorem C10_encode_closed_is_source : ∀ a b c d e f g h i j : Bool,
+    (Jwt.Generated.Pipeline.encode a b c d e f g h 1 i j).1 = (if !a && !b && !c && !d && !e && !f && (g || (!h && !i && !j)) then 0 else 1) :=
+  fun a b c d e f g h i j => (Jwt.Generated.Pipeline.encode_closed a b c d e f g h i j).1
 
 end Jwt.Props.C10
